@@ -121,6 +121,12 @@ Clauses(pre, o, x) ==
         << (closing /\ done) => (o.closed /\ o.fdv = pre.fdv /\ o.eof = pre.eof /\ o.proc = pre.proc /\ o.fd = pre.fd),
            "C10:close-not-idempotent" >>,
         << (closing \/ (o.op = "Del" /\ pty)) => o.fd # "open", "C10:fd-leak" >>,
+        \* dropping the object releases it there and then; one that only the cycle collector frees keeps its
+        \* descriptor and its child until some later, unrelated allocation (harness: descriptors counted after the
+        \* last reference went and again after gc.collect(), automatic collection switched off in between)
+        << ~("cycle" \in DOMAIN o /\ o.cycle), "C10:dropped-object-released-only-by-the-cycle-collector" >>,
+        \* once this object's own waitpid() has collected the child, its pid is a stale handle: no signal goes to it
+        << ~("kar" \in DOMAIN o /\ o.kar), "C10:signal-sent-to-the-pid-of-a-reaped-child" >>,
         << (there /\ o.closed) => o.fd # "open", "C10:fd-leak" >>,
         << (pty /\ o.dfd >= 0) => o.dfd <= (IF o.fd = "open" THEN 1 ELSE 0), "C10:fd-leak" >>,
         << (pty /\ ((closing /\ ~Raised(o)) \/ o.op = "Del")) => o.proc = "reaped", "C10:zombie-leak" >> >>
